@@ -98,7 +98,7 @@ class C26:
             "in the other order, (e) with a Ctrl-C injected at step k (VERIF_FAULTS). evaluations = child processes. "
             "distinct_nontrivial = distinct (pool, order, selection / fault) runs in which at least one test failed before "
             "another test ran (so the recovery between tests was exercised) or an interrupt landed")
-    expected_probes = ["failing_then_later_test", "interrupt_landed_in_test", "two_files", "subset_selection",
+    expected_probes = ["failing_then_later_test", "interrupt_landed_in_test", "two_files", "same_name_in_two_files", "subset_selection",
                        "selection_none", "alone_runs"]
     real_components = ["the real garden binary (`garden test`), including eval_tests / pop_to_toplevel between tests and "
                        "the exit-status logic; hook H2 only counts steps and sets the Ctrl-C flag at step k when asked"]
@@ -125,19 +125,30 @@ class C26:
         r.shuffle(order)
         two_files = r.chance(0.3) and n >= 2
         split = r.randint(1, n - 1) if two_files else n
+        dup = None
+        if two_files and r.chance(0.5):
+            # the same test name in both files, passing in one and failing in the other: they are two tests
+            a_idx, b_idx = order[:split], order[split:]
+            pairs = [(i, j) for i in a_idx for j in b_idx if pool[i]["passes"] != pool[j]["passes"]]
+            if pairs:
+                dup = list(r.choice(pairs))
         subset = r.choice(["t0", "t1", "_pass", "_throw", "assert", "zzz_none", "t"])
-        return {"pool": pool, "order": order, "split": split, "subset": subset, "fault_k": r.randint(1, 150),
+        return {"pool": pool, "order": order, "split": split, "subset": subset, "dup": dup, "fault_k": r.randint(1, 150),
                 "token": f"{r.u64():016x}"}
 
-    def files(self, case, swap=False):
+    def files(self, case, swap=False, dup=False):
         order = case["order"]
         a, b = order[:case["split"]], order[case["split"]:]
+        rename = {}
+        if dup and case.get("dup"):
+            # the test of the second file takes the name of one in the first file
+            rename[case["dup"][1]] = case["pool"][case["dup"][0]]["name"]
 
         def render(idx, with_helpers):
             src = HELPERS if with_helpers else ""
             for i in idx:
                 t = case["pool"][i]
-                src += f"test {t['name']} {{\n  {t['body']}\n}}\n\n"
+                src += f"test {rename.get(i, t['name'])} {{\n  {t['body']}\n}}\n\n"
             return src
         fs = [("tests_a.gdn", render(a, True), a)]
         if b:
@@ -146,13 +157,13 @@ class C26:
             fs.reverse()
         return fs
 
-    def run(self, ctx, case, select=None, swap=False, fault=None):
+    def run(self, ctx, case, select=None, swap=False, fault=None, dup=False):
         ctx["n"] += 1
         root = os.path.join(ctx["dir"], f"run{ctx['n']:06d}")
         os.makedirs(root)
         w = worldsim.World(root, case["token"])
         try:
-            fs = self.files(case, swap)
+            fs = self.files(case, swap, dup)
             for name, src, _ in fs:
                 w.write(name, src)
             argv = [common.BIN, "test"]
@@ -268,6 +279,26 @@ class C26:
             _, v = compare(res, names, "files swapped", False)
             viol += v
             out["nontrivial"].append(mix(pool_hash, "swapped"))
+        # (f) the same test name in both files: still two tests, each with its own verdict
+        if case.get("dup") and case["split"] < len(pool) and not viol:
+            for swap in (False, True):
+                res = self.run(ctx, case, dup=True, swap=swap)
+                out["evaluations"] += 1
+                bump("probe:same_name_in_two_files")
+                what = "one name in both files" + (" (files swapped)" if swap else "")
+                if res["signal"] is not None or res["rc"] == 101 or res["killed"]:
+                    viol.append(("crashed", f"{what}: rc {res['rc']} signal {res['signal']}"))
+                    continue
+                _, summary, _ = parse_output(res["stdout"])
+                n_failed_lines = len(re.findall(r"^Failed: \S+", res["stdout"], re.M))
+                exp_failed = sum(1 for n in names if alone.get(n) is not None)
+                if summary is None or summary[0] != len(names) or summary[2] != exp_failed or n_failed_lines != exp_failed:
+                    viol.append(("verdict-depends-on-context",
+                                 f"{what}: {len(names)} tests of which {exp_failed} fail on their own, but the run reports "
+                                 f"summary {summary} with {n_failed_lines} `Failed:` lines"))
+                elif (res["rc"] != 0) != (exp_failed > 0):
+                    viol.append(("exit-status", f"{what}: exit status {res['rc']} with {exp_failed} failing test(s)"))
+            out["nontrivial"].append(mix(pool_hash, "dupname", str(case["dup"])))
         # (e) Ctrl-C at step k
         res = self.run(ctx, case, fault=case["fault_k"])
         out["evaluations"] += 1
